@@ -539,6 +539,9 @@ fn main() {
         workload::ep_family(a.shard, a.nshards, if thorough { 4 } else { 24 }, &mut crafted);
         let mut frng = Rng::new(0xF20E + a.shard);
         workload::ep_frozen_family(&mut frng, a.shard, a.nshards, if thorough { 16 } else { 64 }, &mut crafted);
+        workload::ep_discovery_family(a.shard, a.nshards, if thorough { 2 } else { 8 }, &mut crafted);
+        let mut dprng = Rng::new(0xD0B1 + a.shard);
+        workload::double_pin_family(&mut dprng, if thorough { 300 } else { 60 }, &mut crafted);
         let mut other = Vec::new();
         workload::castle_family(&mut other);
         workload::promo_family(&mut other);
@@ -571,6 +574,15 @@ fn main() {
                     calls.push(Call::SetBoard(p.to_fen()));
                 }
                 calls.push(Call::Move(*m));
+                // the position right after the special move: its checks / pins were computed
+                // incrementally, so every pseudo-legal but illegal reply is offered too
+                let q = p.apply(*m);
+                let ql = q.legal_moves();
+                for r in q.pseudo_moves() {
+                    if !ql.contains(&r) {
+                        calls.push(Call::Move(r));
+                    }
+                }
             }
             run_case(&mut c, &api, &calls, cr.family, None);
         }
